@@ -69,13 +69,15 @@ theorem rack_arith_regenerated (P M L C : Nat) :
 /-- structure of the source that the models rely on: the Range / RoundRobin loops are the plain triple loop without
 early exits, every value of the map `findMembersByTopic` returns is sorted, both member-by-topic loops skip repeated topics through
 `topicListedBefore` (modelled by `firstListings`), and `makeSyncGroupRequestV0` allocates the per-member map inside
-the loop over the members (modelled by `syncRequest` calling `toTopics32` afresh per member) -/
+the loop over the members (modelled by `syncRequest` calling `toTopics32` afresh per member), and both Metadata
+readers of conn.go keep the other topics when one is unknown (modelled by `readTopicMetadata`) -/
 theorem structure_regenerated :
     Gen.GroupBalancer.plainSelectionLoops = ["RangeGroupBalancer.AssignGroups", "RoundRobinGroupBalancer.AssignGroups"] ∧
     Gen.GroupBalancer.sortsEveryMapValue = true ∧
     Gen.GroupBalancer.topicGuardSites = ["findMembersByTopic", "RackAffinityGroupBalancer.AssignGroups"] ∧
     Gen.GroupBalancer.topicListedBeforeIsPrefixSearch = true ∧
-    Gen.GroupBalancer.topics32FreshPerMember = true := by decide
+    Gen.GroupBalancer.topics32FreshPerMember = true ∧
+    Gen.GroupBalancer.topicMetadataReaders = (2, 2) := by decide
 
 /-! ## 1. Range -/
 
@@ -563,6 +565,23 @@ theorem rack_round (ρ : TopicMap → TopicMap) (hρ : ∀ l, (ρ l).Perm l) (ms
       ∀ id, OnlySubscribersAt ms (delivered ρ (rackAsg ms got σ₁ σ₂) ids ts) t id :=
   have hd := rack_delivered ρ hρ ms got σ₁ σ₂ h h1 h2 ids ts hts hr hids t ht
   ⟨round_good ρ hρ ms cluster got hread _ ids ts t hd.1, hd.2⟩
+
+/-! A subscribed topic that does not exist (yet) — finding C14-D31 (fixed in /repo).  `assignTopicPartitions` means
+"no assignments for the topic" (its comment) and goes on; with the fix the leader is still given every partition of the
+topics that do exist, so all `*_round` theorems apply with `got = leaderPartitions cluster missing ms` (the cluster has no
+partitions of a missing topic).  Any other lookup error fails the join: nothing is distributed, nobody gets a generation —
+C14 is a statement about the assignments that are distributed. -/
+
+theorem missing_topic_reads (cluster : List Part) (missing : List Nat) (ms : List Member)
+    (hmiss : ∀ p ∈ cluster, ¬ p.topic ∈ missing) :
+    ReadsTopics cluster (extractTopics ms) (leaderPartitions cluster missing ms) :=
+  leaderPartitions_reads cluster missing ms hmiss (KV.GroupRound.extractTopics_nodup ms)
+
+/-- before the fix: one missing topic hid the partitions of every other topic (the whole group received nothing) -/
+theorem prefix_missing_topic_starves_counterexample :
+    let cluster : List Part := [⟨0, 0, 0⟩, ⟨0, 1, 0⟩]
+    readTopicMetadataPreFix (metadataAnswer cluster [1] [0, 1]) [] = ([], true) ∧
+    readTopicMetadata (metadataAnswer cluster [1] [0, 1]) = (cluster, true) := by decide
 
 end Glue
 
